@@ -1,5 +1,6 @@
 """C02 -- returned designs satisfy every user-specified numeric constraint."""
 from . import searchfam, search_oracles as so
+from . import common
 from .c01 import RULE
 
 
@@ -38,7 +39,7 @@ def boundary_cases(ck, tier):
         out.append(c)
         k += 1
   # the data object served an analysis over a longer window first; budget range on the short window
-  for j in range(6 if tier == 'quick' else 60):
+  for j in range(common.sz(tier, 6, 60)):
     c = search.gen_case(ck.seed * 11 + 500 + j, tier, max_geos=5)
     c['par'] = dict(c['par'], n_pretest_max=12)
     c['want_budget'] = True
